@@ -30,6 +30,20 @@ import (
 type KV struct {
 	K string `json:"k"`
 	V Tpl    `json:"v"`
+	// Null: the YAML form of an EMPTY value: "" (key: ""), "bare" (key:), "~" (key: ~),
+	// "null" (key: null). The last three are YAML !!null scalars.
+	Null string `json:"null,omitempty"`
+}
+
+// nullValue: what an empty placement written in form f defines. A bare `key:` is
+// the empty string. For `~` and `null` the statement leaves the value open (the
+// tree stores the scalar's text); both readings are evaluated and either is
+// accepted - in every reading the key IS defined at that level.
+func nullValue(f string, asText bool) string {
+	if asText && (f == "~" || f == "null") {
+		return f
+	}
+	return ""
 }
 
 type IterSpec struct {
@@ -81,7 +95,14 @@ func emitKVs(sb *strings.Builder, ind, key string, kvs []KV) {
 	}
 	sb.WriteString(ind + key + ":\n")
 	for _, kv := range kvs {
-		sb.WriteString(ind + "  " + kv.K + ": " + q(kv.V.Text()) + "\n")
+		switch {
+		case kv.Null == "bare" && kv.V.Text() == "":
+			sb.WriteString(ind + "  " + kv.K + ":\n")
+		case (kv.Null == "~" || kv.Null == "null") && kv.V.Text() == "":
+			sb.WriteString(ind + "  " + kv.K + ": " + kv.Null + "\n")
+		default:
+			sb.WriteString(ind + "  " + kv.K + ": " + q(kv.V.Text()) + "\n")
+		}
 	}
 }
 
@@ -279,6 +300,10 @@ type EvalState struct {
 	// onStage0, when set, is called before a role's `enabled` is evaluated (used by
 	// the C14 generator to fill in probe literals during a first prediction)
 	onStage0 func(n *Node, look lookupFn)
+	// IterVals: the values every iteration variable took during the evaluation
+	IterVals map[string]map[string]bool
+	// NullAsText: `key: ~` / `key: null` define the scalar's text instead of ""
+	NullAsText bool
 }
 
 func parseRange(it *IterSpec, look lookupFn) ([]string, error) {
@@ -360,8 +385,15 @@ func evalRole(n *Node, parent Layer, parentPath string, locals map[string]string
 		}
 	}
 	elem := ""
-	for _, v := range locals {
+	for k, v := range locals {
 		elem = v
+		if st.IterVals == nil {
+			st.IterVals = map[string]map[string]bool{}
+		}
+		if st.IterVals[k] == nil {
+			st.IterVals[k] = map[string]bool{}
+		}
+		st.IterVals[k][v] = true
 	}
 	rawName := n.Name.Text()
 	wouldBe = []string{rawName}
@@ -392,6 +424,9 @@ func evalRole(n *Node, parent Layer, parentPath string, locals map[string]string
 		if err != nil {
 			return fail("defaults")
 		}
+		if kv.Null != "" && v == "" {
+			v = nullValue(kv.Null, st.NullAsText)
+		}
 		ownD[kv.K] = v
 	}
 	// STAGE2: own vars see own defaults
@@ -400,6 +435,9 @@ func evalRole(n *Node, parent Layer, parentPath string, locals map[string]string
 		v, err := kv.V.Eval(look(2))
 		if err != nil {
 			return fail("vars")
+		}
+		if kv.Null != "" && v == "" {
+			v = nullValue(kv.Null, st.NullAsText)
 		}
 		tmpV[kv.K] = v
 	}
@@ -562,7 +600,11 @@ func fixPaths(x *XRole) {
 // Predict evaluates the whole program. tree == nil with no errors means: the
 // root itself ends up disabled/empty.
 func Predict(root *Node, env Layer) (tree *XRole, reason string, st *EvalState) {
-	st = &EvalState{}
+	return PredictOpt(root, env, false)
+}
+
+func PredictOpt(root *Node, env Layer, nullAsText bool) (tree *XRole, reason string, st *EvalState) {
+	st = &EvalState{NullAsText: nullAsText}
 	if env.D == nil {
 		env.D = map[string]string{}
 	}
